@@ -12,7 +12,7 @@ TSP4 = [[0, 2, 1, 2], [2, 0, 2, 1], [1, 2, 0, 2], [2, 1, 2, 0]]
 TSP5 = [[0, 3, 4, 2, 7], [3, 0, 4, 6, 3], [4, 4, 0, 5, 8], [2, 6, 5, 0, 6], [7, 3, 8, 6, 0]]
 TSP4A = [[0, 9, 1, 8], [2, 0, 7, 1], [9, 1, 0, 3], [1, 6, 2, 0]]                       # asymmetric
 TSP5A = [[0, 2, 9, 9, 1], [8, 0, 3, 9, 7], [9, 6, 0, 1, 2], [4, 9, 7, 0, 5], [3, 1, 8, 6, 0]]
-SB = {"bibd", "golomb", "magic_square", "quasigroup", "quasigroup5", "schur", "sts"}
+SB = {"bibd", "golomb", "golomb_bounded", "magic_square", "quasigroup", "quasigroup5", "schur", "sts"}
 CFGS = [{"ca": 0, "vh": 0, "dh": 0}, {"ca": 1, "vh": 0, "dh": 0}, {"ca": 0, "vh": 1, "dh": 1}, {"ca": 0, "vh": 2, "dh": 3},
         {"ca": 0, "vh": 1, "dh": 2}]
 
@@ -26,6 +26,8 @@ def instances(tier):
     q += [("magic_square", [n], "solve") for n in (2, 3)]
     q += [("magic_sequence", [n], "solve") for n in (3, 4, 5, 6, 7, 8, 10, 16, 30)]
     q += [("golomb", [n], "min") for n in (3, 4, 5, 6)]
+    q += [("golomb_bounded", [4, 7], "solve"), ("golomb_bounded", [5, 11], "solve"), ("golomb_bounded", [5, 13], "solve"),
+          ("golomb_bounded", [6, 17], "solve")]
     q += [("bibd", [6, 10, 5, 3, 2], "solve"), ("bibd", [7, 7, 3, 3, 1], "solve")]
     q += [("schur", [n], "solve") for n in (3, 5, 7, 9, 13, 14)]
     q += [("knapsack", KNAP, "max"), ("circuit", [2], "solve"), ("circuit", [3], "solve"), ("circuit", [4], "solve"),
@@ -58,9 +60,10 @@ def items(tier, seed):
         if name in ("queens", "latin_square") and mode == "solve" and (args[0] if name == "queens" else len(args[0])) >= 4:
             for procs in (2, 3):
                 out.append({"name": name, "args": args, "sb": False, "cfg": CFGS[0], "mode": mode, "procs": procs, "gid": gid, "stop": 10 ** 9})
-        if name == "golomb":
-            out.append({"name": name, "args": args, "sb": True, "cfg": {"ca": 0, "vh": 0, "dh": 0, "golomb_ca": True}, "mode": mode,
-                        "procs": 1, "gid": gid, "stop": 10 ** 9})
+        if name in ("golomb", "golomb_bounded"):
+            for sb in (True, False):
+                out.append({"name": name, "args": args, "sb": sb, "cfg": {"ca": 0, "vh": 0, "dh": 0, "golomb_ca": True}, "mode": mode,
+                            "procs": 1, "gid": gid, "stop": 10 ** 9})
     for k, it in enumerate(out):
         it["rid"] = k
     return out
